@@ -86,7 +86,9 @@ def canon(abi, name):
 
 
 CTX_SHAPES = ["plain-leaf", "syscall-only", "calls", "no-function",
-              "calls-in-other-block", "leaf-gets-a-call-in-an-earlier-run"]
+              "calls-in-other-block", "leaf-gets-a-call-in-an-earlier-run",
+              "no-function-behind-a-calling-function",
+              "leaf-gets-a-call-then-a-context-without-it"]
 
 
 def gen_case(rng, tier, index):
@@ -186,11 +188,21 @@ def run_ctx(c):
         "no-function": [blk(0, ["f"], [{"k": "nop"}, {"k": "ret"}])],
         "leaf-gets-a-call-in-an-earlier-run": [
             blk(0, ["f"], [{"k": "nop"}, {"k": "ret"}])],
+        "leaf-gets-a-call-then-a-context-without-it": [
+            blk(0, ["f"], [{"k": "nop"}, {"k": "ret"}])],
+        # code that belongs to no function, right behind a function that
+        # calls
+        "no-function-behind-a-calling-function": [
+            blk(5, ["h"], [{"k": "nop"}, {"k": "call", "t": "g"}]),
+            blk(6, ["h1"], [{"k": "ret"}]),
+            blk(0, ["f"], [{"k": "nop"}, {"k": "ret"}])],
     }[shape]
     blocks = blocks + [blk(9, ["g"], [{"k": "ret"}])]
-    fblocks = [b["id"] for b in blocks if b["id"] != 9]
+    fblocks = [b["id"] for b in blocks if b["id"] not in (9, 5, 6)]
     funcs = [{"name": "g", "blocks": [9], "entries": [9]}]
-    if shape != "no-function":
+    if shape == "no-function-behind-a-calling-function":
+        funcs.append({"name": "h", "blocks": [5, 6], "entries": [5]})
+    elif shape != "no-function":
         funcs.append({"name": "f", "blocks": fblocks, "entries": [0]})
     case = {"isa": "x64", "fmt": "elf", "pie": False, "externs": [],
             "entry": None, "edits": [], "funcs": funcs,
@@ -236,22 +248,35 @@ def run_ctx(c):
                     lambda _ctx: "callq g\n", Constraints()))
             else:
                 ctx.insert_at(bu.blocks[0], 0, patch)
-    if shape == "leaf-gets-a-call-in-an-earlier-run":
+    if shape in ("leaf-gets-a-call-in-an-earlier-run",
+                 "leaf-gets-a-call-then-a-context-without-it"):
         # first seen as a leaf: stays protected in later runs of the manager
         pm = PassManager()
         step = Reg("call")
         pm.add(step)
         pm.run(bu.ir)
         step.what = "patch"
+        if shape == "leaf-gets-a-call-then-a-context-without-it":
+            # ... also when a context in between is given only some of the
+            # functions
+            some = [f for f in gtirb_functions.Function.build_functions(m)
+                    if bu.blocks[0] not in f.get_all_blocks()]
+            ctx = RewritingContext(m, some)
+            ctx.insert_at(bu.blocks[9], 0, Patch.from_function(
+                lambda _ctx: "nop\n", Constraints()))
+            ctx.apply()
     else:
         pm = PassManager()
         pm.add(Reg("patch"))
     before = len(bu.intervals[0][0].contents)
+    off0 = bu.blocks[0].offset
     pm.run(bu.ir)
     bi = bu.intervals[0][0]
-    ins = bytes(bi.contents)[:len(bi.contents) - before]
+    ins = bytes(bi.contents)[off0:off0 + len(bi.contents) - before]
     may_be_leaf = shape in ("plain-leaf", "syscall-only", "no-function",
-                            "leaf-gets-a-call-in-an-earlier-run")
+                            "leaf-gets-a-call-in-an-earlier-run",
+                            "leaf-gets-a-call-then-a-context-without-it",
+                            "no-function-behind-a-calling-function")
     rng = random.Random(c["seed"])
     names = [canon("x64-elf", r) for r in ALLREGS["x64-elf"]] + ["rbp"]
     for res in (0, 8):
